@@ -4,6 +4,7 @@
                                             ensure_max_population_size, on_generation, select, ranked, size, selection_phase}
      rosomaxa/src/population/rosomaxa.rs :: Rosomaxa::{new, add, add_all, is_comparable_with_best_known, on_generation/update_phase,
                                             select, ranked, size, selection_phase}, create_dedup_fn
+                                            + the bool returned by add / add_all of all three (Elitism::is_improved): Section Returns, step_ret
      rosomaxa/src/lib.rs                 :: TelemetryHeuristicContext::{on_initial, on_generation}  (solve_loop)
      rosomaxa/src/evolution/strategies/iterative.rs :: Iterative::run (solve_loop: select / add_all offspring / on_generation / ranked)
    Individuals are abstract (`ind`) with `cmp : ind -> ind -> comparison` (HeuristicObjective::total_order) and
@@ -13,7 +14,7 @@
    The GSOM network of Rosomaxa is abstracted to the bag `net` of individuals handed to it; what the nodes return in a
    selection is an oracle argument `nodes`.  Panics (`expect("cannot create network")`, `assert!(!initial_data.is_empty())`)
    are `None`.
-   Entry points used by the correspondence: run_greedy, run_elitism, run_rosomaxa (concrete individuals `zi`).
+   Entry points used by the correspondence: run_greedy, run_elitism, run_rosomaxa, rets_greedy, rets_elitism, rets_rosomaxa (concrete individuals `zi`).
    No proofs in this file. *)
 From VRP Require Import Base.Tac.
 
@@ -264,6 +265,10 @@ Definition stored (p : pop) : option (list ind) :=
   | _ => None
   end.
 
+(* the offering operations of a history, in order (what is left when generation ticks, selections and reads are dropped) *)
+Definition is_offer (o : op) : bool := match o with OAdd _ | OAddAll _ => true | _ => false end.
+Definition offers (ops : list op) : list op := filter is_offer ops.
+
 End Generic.
 
 Arguments greedy : clear implicits.
@@ -272,6 +277,43 @@ Arguments rosomaxa : clear implicits.
 Arguments rphase : clear implicits.
 Arguments pop : clear implicits.
 Arguments op : clear implicits.
+
+(* ================= the bool returned by add / add_all ("is any of the new individuals considered best known") =================
+   greedy.rs  :: add returns whether the best was replaced; add_all: `self.add(x) || acc` over the batch
+   elitism.rs :: is_improved(best_known_fitness): no best before, or some fitness component of the new first individual differs from the
+                 old first one (`zip(..).any(|(a, b)| a != b)`); add_all on an empty batch returns false
+   rosomaxa.rs:: add_all returns what its elite returns for the filtered batch
+   `fit_differs a b` = some component of the fitness vectors of a and b differs. *)
+Section Returns.
+Context {ind : Type}.
+Variable cmp : ind -> ind -> comparison.
+Variable dedup : ind -> ind -> bool.
+Variable fit_differs : ind -> ind -> bool.
+
+Definition e_is_improved (old new : list ind) : bool :=
+  match hd_error old, hd_error new with
+  | Some a, Some b => fit_differs a b
+  | _, _ => true
+  end.
+Definition e_add_ret (st : elitism ind) (xs : list ind) : bool :=
+  e_is_improved (e_inds st) (e_inds (e_add_with_iter cmp dedup st xs)).
+Definition e_add_all_ret (st : elitism ind) (xs : list ind) : bool :=
+  match xs with [] => false | _ => e_add_ret st xs end.
+Definition r_add_all_ret (st : rosomaxa ind) (xs : list ind) : bool :=
+  e_add_all_ret (r_elite st) (filter (is_comparable cmp (hd_error (e_inds (r_elite st)))) xs).
+
+(* what the operation returns to its caller (None: on_generation / select / ranked return no bool) *)
+Definition step_ret (p : pop ind) (o : op ind) : option bool :=
+  match o, p with
+  | OAdd x, PG g => Some (fst (g_add cmp g x))
+  | OAdd x, PE e => Some (e_add_ret e [x])
+  | OAdd x, PR r => Some (r_add_all_ret r [x])
+  | OAddAll xs, PG g => Some (fst (g_add_all cmp g xs))
+  | OAddAll xs, PE e => Some (e_add_all_ret e xs)
+  | OAddAll xs, PR r => Some (r_add_all_ret r xs)
+  | _, _ => None
+  end.
+End Returns.
 
 (* ================= concrete individuals for the correspondence ================= *)
 (* harness solution: id, key (what the objective orders by), tag (second fitness component when `two`), w (the GSOM weight) *)
@@ -345,4 +387,30 @@ Definition run_rosomaxa (initial sel elite er : Z) (two : bool) (ops : list zop)
   match rosomaxa_new {| c_initial := Z.to_nat initial; c_sel := Z.to_nat sel; c_elite := Z.to_nat elite; c_er := er |} with
   | Some p => ztrace 5 two p ops
   | None => ([], true)
+  end.
+
+(* fitness of the harness solution: [key] or [key, tag] *)
+Definition zfit_differs (two : bool) (a b : zi) : bool :=
+  negb (zkey a =? zkey b) || (two && negb (ztag a =? ztag b)).
+
+(* the bools returned by the add / add_all operations of a history, in order (-1: the operation returns nothing, 0 false, 1 true) *)
+Fixpoint zrets (mode : Z) (two : bool) (p : pop zi) (ops : list zop) : list Z :=
+  match ops with
+  | [] => []
+  | o :: ops' =>
+      match step zcmp (zdedup mode two) p (to_op o) with
+      | None => []
+      | Some p' =>
+          (match step_ret zcmp (zdedup mode two) (zfit_differs two) p (to_op o) with
+           | Some true => 1 | Some false => 0 | None => -1 end) :: zrets mode two p' ops'
+      end
+  end.
+Definition rets_greedy (sel : Z) (best : list zi) (ops : list zop) : list Z :=
+  zrets 0 false (greedy_new (Z.to_nat sel) (hd_error best)) ops.
+Definition rets_elitism (max sel mode : Z) (two : bool) (ops : list zop) : list Z :=
+  match elitism_new (Z.to_nat max) (Z.to_nat sel) with Some p => zrets mode two p ops | None => [] end.
+Definition rets_rosomaxa (initial sel elite er : Z) (two : bool) (ops : list zop) : list Z :=
+  match rosomaxa_new {| c_initial := Z.to_nat initial; c_sel := Z.to_nat sel; c_elite := Z.to_nat elite; c_er := er |} with
+  | Some p => zrets 5 two p ops
+  | None => []
   end.
